@@ -183,8 +183,14 @@ def error_case(case):
                 out_path = os.path.join(d, "adir")
                 os.mkdir(out_path)
                 argv = ["-o", out_path] + argv
+        probe_out = None
+        if case.get("with_o") and out_path is None:
+            probe_out = os.path.join(d, "fresh-out.svg")
+            argv = ["-o", probe_out] + argv
         rc, so, se = run_cli(argv, stdin)
         errs = []
+        if probe_out and os.path.exists(probe_out):
+            errs.append("the failed run left an output file of %d bytes behind" % os.path.getsize(probe_out))
         if rc == 0:
             errs.append("exit status 0 although the conversion could not succeed")
         if rc == "timeout":
@@ -238,8 +244,25 @@ def build_case(case, ref):
         else:  # missing input directory
             outdir = os.path.join(d, "out")
             argv = ["build", "-i", os.path.join(d, "nodir", "*.bob"), "-o", outdir]
+        failing = case.get("failing")
+        if failing:
+            # the target of one matching file cannot be written: a directory stands in its place
+            os.makedirs(os.path.join(outdir, failing[:-4] + ".svg"), exist_ok=True)
         before = set(os.listdir(src))
         rc, so, se = run_cli(argv, cwd=cwd)
+        if failing:
+            errs = []
+            if rc == 0:
+                errs.append("exit status 0 although %s could not be converted" % failing)
+            if not so and not se:
+                errs.append("no diagnostic for the file that failed")
+            for n in names:
+                if n.endswith(".bob") and n != failing:
+                    p = os.path.join(outdir, n[:-4] + ".svg")
+                    want = ref.doc(BUILD_FILES[n], {})
+                    if not os.path.isfile(p) or (want is not None and open(p, "rb").read() != want.encode()):
+                        errs.append("%s was not converted correctly next to the failing file" % n)
+            return errs
         errs = []
         if mode == "missing":
             if rc == 0:
@@ -309,6 +332,7 @@ def enumerate_cases(tier):
                 errs.append(dict(kind="bad-" + flag, in_mode=im, value=v))
         errs.append(dict(kind="out-missing-dir", in_mode=im))
         errs.append(dict(kind="out-is-dir", in_mode=im))
+    errs = errs + [dict(e, with_o=True) for e in errs if not e["kind"].startswith("out-")]
     builds = []
     names = list(BUILD_FILES)
     maxfiles = 3 if tier == "quick" else 4
@@ -317,6 +341,11 @@ def enumerate_cases(tier):
             for mode in ("outdir", "inplace", "cwd-default"):
                 builds.append(dict(files=list(combo), mode=mode))
     builds.append(dict(files=[], mode="missing"))
+    # one failing file among several: every choice of the failing one (directory order is not under our control)
+    for combo in (["a.bob", "b.bob", "empty.bob"], ["a.bob", "d.v2.bob", "e f.bob", "b.bob"]):
+        for failing in combo:
+            for mode in ("outdir", "inplace"):
+                builds.append(dict(files=list(combo), mode=mode, failing=failing))
     return conv, errs, builds
 
 
